@@ -199,6 +199,25 @@ def coq_make(targets, timeout=1500, keep_going=True):
         return r.returncode == 0, r.stdout + r.stderr
 
 
+TRANSLATORS = ["tr_lemon", "tr_writers", "tr_enums", "tr_escapers", "tr_wrappers", "tr_globals", "tr_engine", "tr_callgraph",
+               "tr_metakeys", "tr_packages", "tr_bounds"]
+
+
+def refresh_gen(skip=()):
+    """Regenerate every gen/*.v from the current /repo tree.  A property file (or the extraction) may depend on generated
+    files that belong to another property's translator; whatever an earlier run left there (possibly from a different
+    tree) must not decide this run.  A translator that does not recognise the sources any more is reported by the check
+    that owns it; here its file is only left as it is."""
+    import importlib
+    for name in TRANSLATORS:
+        if name in skip:
+            continue
+        try:
+            importlib.import_module(name).main()
+        except Exception as e:
+            log("[gen] %s: %s" % (name, str(e)[:200]))
+
+
 def coq_prove(prop_file):
     """Build props/<prop_file>.vo; parse theorem names and Print Assumptions output.
     Returns dict(ok, theorems=[names], failed=[names or file-level], assumptions={thm: text}, output)."""
